@@ -325,6 +325,7 @@ pub fn execute_c05i(plan: &Plan) -> Outcome {
                 tokio::time::sleep(Duration::from_millis(60)).await;
                 // (legacy Shadowsocks datagrams carry nothing that tells a copy from the original - a limit of the protocol)
                 if !legacy && at_target() != t_before + 1 {
+                    findings.push(("C11", "packet-id-accepted-twice-after-address-change".into(), format!("round {round}: the packet id of an already relayed datagram was accepted a second time when the same datagram arrived from another address"), None));
                     findings.push(("C05", "inpath-replay-from-another-address-relayed".into(), format!("round {round}: an unchanged copy of an already relayed datagram, sent from another address, was relayed again"), None));
                 }
                 // whatever the replay itself set in motion (legacy ciphers: it is relayed and answered to its sender) is not the owner's
